@@ -58,6 +58,13 @@ CLAIMS = {
         "note": "Trusted: E2 std models; the tokenizer is executed as well (texts are built per path). Outside: the interaction with each block's real TAG_LIST and the model equality of the whole file with/without the element.",
         "technique": "SMT-based bounded symbolic execution of MIR (z3), native replay",
     },
+    "C05": {
+        "engine": "E2-mirsym",
+        "text": "The whole load -> write pipeline (tokenizer, generated parsers and writers of the elements in the template, line-offset bookkeeping, comment handling) is executed by the symbolic executor on a template document whose layout is chosen per gap from the layouts the property allows (spaces, line breaks, blank lines, CRLF, both comment kinds, multi-line comments): every significant token keeps its line, the token sequence is unchanged, the reloaded model is equal and the second write is identical.",
+        "design_ref": "DESIGN.md section 4 C05 / C01 H01c",
+        "note": "The layout choices are enumerated by forking (bounded shape); the solver is only needed for feasibility. Trusted: E2 std models. Outside: element kinds not in the template, edit locality.",
+        "technique": "bounded symbolic execution of MIR (fork per layout choice), native replay of counterexamples and sampled paths",
+    },
 }
 
 _PENDING = "check not built yet in this revision of /verif (see DESIGN.md section 7 for the order of work)"
